@@ -5,7 +5,8 @@
   fixes/C41-window-tables.patch, compared with the real reader on every run) on top of the
   C20 cursor model.
 -/
-import Influx.Lemmas.FluxTableEmpty
+import Influx.Lemmas.FluxTableCompose
+import Influx.Props.C20
 
 namespace Influx.Props.C41
 open Influx.WindowAgg Influx.FluxTable Influx.Spec.C41
@@ -234,6 +235,193 @@ theorem C41_createEmpty_rows (q : Req) (h : 0 < q.every) (hb : q.bstart < q.bsto
     cases fuel' with
     | zero => simp [drainBuffers]
     | succ m => simp [drainBuffers, hnone]
+
+/-! ### end to end, for the aggregates count / sum / mean without a time column -/
+
+def fillOf (q : Req) : Option Val := if q.agg = .count then some (Val.i 0) else none
+
+theorem seriesTables_nonsel (B : Nat) (q : Req) (hns : isSelector q.agg = false) (htc : q.timeCol = .none)
+    (arrs : List (List (Pt Val))) :
+    seriesTables B q arrs =
+      ((drainBuffers (advanceW q true (fillOf q)) (arrs.flatten.length + 2)
+          ⟨[], [], arrs, (q.win.getLatestBounds q.bstart).index⟩).flatten).map fun r => ⟨r.start, r.stop, [r]⟩ := by
+  unfold seriesTables fillOf
+  simp only [hns, Bool.not_false, Bool.true_or, ↓reduceIte, htc, Bool.false_and]
+  cases hbuf : drainBuffers (advanceW q true (if q.agg = Agg.count then some (Val.i 0) else none))
+      (arrs.flatten.length + 2) ⟨[], [], arrs, (q.win.getLatestBounds q.bstart).index⟩ with
+  | nil => simp
+  | cons b bs => simp
+
+theorem mapM_map_some {β γ : Type} (f : β → Option γ) (g : β → γ) (l : List β) (hfg : ∀ x ∈ l, f x = some (g x)) :
+    l.mapM f = some (l.map g) := by
+  induction l with
+  | nil => rfl
+  | cons x xs ih =>
+    rw [List.mapM_cons, hfg x (by simp), ih (fun y hy => hfg y (by simp [hy]))]
+    rfl
+
+theorem logical_single (q : Req) (htc : q.timeCol = .none) (rows : List Row) :
+    logical q (rows.map fun r => ⟨r.start, r.stop, [r]⟩) = some (rows.map fun r => ⟨r.start, r.stop, r.time, r.value⟩) := by
+  unfold logical
+  rw [htc]
+  simp only
+  rw [List.mapM_map]
+  apply mapM_map_some
+  intro r _
+  simp
+
+theorem zip_map_all' {β γ : Type} (l : List β) (f : β → γ) (P : β × γ → Bool) :
+    (l.zip (l.map f)).all P = l.all (fun x => P (x, f x)) := by
+  induction l with
+  | nil => rfl
+  | cons x xs ih => simp [ih]
+
+theorem rowOK_present (o : Ops Val) (q : Req) (hns : isSelector q.agg = false) (pts : List (Pt Val)) (i : Int)
+    (hi : i ∈ distinctIdx q pts) :
+    rowOK o q pts i ⟨(clipped q i).1, (clipped q i).2, .absent, some (aggVal o q.agg (members q pts i))⟩ = true := by
+  have hne := members_nonempty q pts i hi
+  unfold rowOK expectedRow
+  cases hm : members q pts i with
+  | nil => exact absurd hm hne
+  | cons x xs =>
+    have : (pts.filter fun p => widx q p.1 == i) = x :: xs := hm
+    simp [this, aggregate_nonsel o q.agg hns]
+
+theorem rowOK_absent (o : Ops Val) (q : Req) (pts : List (Pt Val)) (i : Int) (hi : i ∉ distinctIdx q pts) :
+    rowOK o q pts i ⟨(clipped q i).1, (clipped q i).2, .absent, fillOf q⟩ = true := by
+  have hm := members_empty q pts i hi
+  have : (pts.filter fun p => widx q p.1 == i) = [] := hm
+  unfold rowOK expectedRow fillOf
+  simp only [this, Spec.C20.aggregate, decide_true, Bool.true_and]
+  by_cases hc : q.agg = .count <;> simp [hc]
+
+theorem length_le_flatten (arrs : List (List (Pt Val))) (hne : ∀ a ∈ arrs, a ≠ []) :
+    arrs.length ≤ arrs.flatten.length := by
+  induction arrs with
+  | nil => simp
+  | cons a r ih =>
+    have ha : 0 < a.length := List.length_pos_iff.mpr (hne a (by simp))
+    have := ih (fun x hx => hne x (by simp [hx]))
+    simp only [List.length_cons, List.flatten_cons, List.length_append]; omega
+
+/-- **C41 on the model, end to end** (partial: the aggregates count, sum, mean; no time column;
+    both with and without empty windows).  If the storage cursor returns — in arrays cut anywhere —
+    what C20 proves it returns (the grouped aggregate of the raw points of the series inside
+    the bounds), then the tables of the reader pass the statement checker: one table per
+    non-empty window (per window inside the bounds with createEmpty), keyed by the window
+    clipped to the bounds, holding the aggregate of that window's raw rows, null (0 for count)
+    for an empty window. -/
+theorem C41_holdsOn_partial (B : Nat) (o : Ops Val) (q : Req) (h : 0 < q.every) (hb : q.bstart < q.bstop)
+    (hns : isSelector q.agg = false) (htc : q.timeCol = .none)
+    (pts : List (Pt Val)) (hpts : pts ≠ []) (hs : Sorted pts)
+    (hin : ∀ p ∈ pts, q.bstart ≤ p.1 ∧ p.1 < q.bstop)
+    (arrs : List (List (Pt Val))) (hne : ∀ a ∈ arrs, a ≠ [])
+    (hcur : arrs.flatten = Spec.C20.aggSpec o q.agg (stopFn q) pts) :
+    holdsOn o ⟨q, pts, some (seriesTables B q arrs)⟩ = true := by
+  rw [out_nonsel o q h hns] at hcur
+  have hasc := distinctIdx_ascending q h pts hs
+  -- every distinct window has a raw row inside the bounds
+  have hmemW : ∀ i ∈ distinctIdx q pts, ∃ x ∈ pts, widx q x.1 = i := fun i hi => (mem_distinctIdx q pts i).mp hi
+  have hplaced : ∀ p ∈ arrs.flatten, WellPlaced q true p.1 := by
+    intro p hp
+    rw [hcur] at hp
+    obtain ⟨i, hi, rfl⟩ := List.mem_map.mp hp
+    obtain ⟨x, hx, hxi⟩ := hmemW i hi
+    have hsx := widx_spec q h x.1
+    rw [hxi] at hsx
+    simp only [WellPlaced, ↓reduceIte]
+    exact ⟨i, rfl, by have := (hin x hx).2; omega⟩
+  have hpe : pts.isEmpty = false := by cases pts with | nil => exact absurd rfl hpts | cons => rfl
+  rw [seriesTables_nonsel B q hns htc]
+  unfold holdsOn
+  simp only [hpe, Bool.false_eq_true, ↓reduceIte]
+  rw [logical_single q htc]
+  simp only
+  by_cases hce : q.createEmpty = true
+  · -- one row per window inside the bounds
+    have harr : arrs ≠ [] := by
+      intro he
+      rw [he] at hcur
+      simp only [List.flatten_nil] at hcur
+      have := congrArg List.length hcur
+      simp only [List.length_nil, List.length_map] at this
+      cases hp : pts with
+      | nil => exact hpts hp
+      | cons x xs =>
+        have hx : widx q x.1 ∈ distinctIdx q pts := (mem_distinctIdx q pts _).mpr ⟨x, by simp [hp], rfl⟩
+        cases hd : distinctIdx q pts with
+        | nil => rw [hd] at hx; cases hx
+        | cons => rw [hd] at this; simp at this
+    have hinc : arrs.flatten.Pairwise (fun a b => pointWin q true a.1 < pointWin q true b.1) := by
+      rw [hcur, List.pairwise_map]
+      refine hasc.imp ?_
+      intro a b hab
+      simp only [pointWin_stop q h]; exact hab
+    have hrange : ∀ p ∈ arrs.flatten, widx q q.bstart ≤ pointWin q true p.1 ∧
+        pointWin q true p.1 < widx q q.bstart + countFrom q (widx q q.bstart) := by
+      intro p hp
+      rw [hcur] at hp
+      obtain ⟨i, hi, rfl⟩ := List.mem_map.mp hp
+      obtain ⟨x, hx, hxi⟩ := hmemW i hi
+      have hbx := widx_bounds q h hb x.1 (hin x hx).1 (hin x hx).2
+      have hc := countFrom_first q h hb
+      rw [pointWin_stop q h, ← hxi]
+      omega
+    rw [C41_createEmpty_rows q h hb hce true (fillOf q) arrs hne harr hplaced hinc hrange _ (by omega)]
+    simp only [List.flatten_cons, List.flatten_nil, List.append_nil, List.map_map]
+    have hwin : windows q pts = intRange (widx q q.bstart) (countFrom q (widx q q.bstart)) := by
+      have he : emptiesRequired q = true := by simp [emptiesRequired, hce, hns]
+      simp only [windows, he, ↓reduceIte]
+      congr 1
+      have := countFrom_first q h hb
+      omega
+    rw [hwin]
+    simp only [List.length_map, beq_self_eq_true, Bool.true_and]
+    rw [zip_map_all', List.all_eq_true]
+    intro k _
+    simp only [Function.comp_def, mkRow, htc, hcur]
+    rw [valueAt_out q h (fun i => aggVal o q.agg (members q pts i))]
+    by_cases hk : k ∈ distinctIdx q pts
+    · simp only [hk, ↓reduceIte]
+      exact rowOK_present o q hns pts k hk
+    · simp only [hk, ↓reduceIte]
+      exact rowOK_absent o q pts k hk
+  · -- one row per non-empty window
+    have hce' : q.createEmpty = false := by simpa using hce
+    have hplaced' : ∀ a ∈ arrs, ∀ p ∈ a, WellPlaced q true p.1 :=
+      fun a ha p hp => hplaced p (List.mem_flatten.mpr ⟨a, ha, hp⟩)
+    have hlen := length_le_flatten arrs hne
+    rw [C41_window_rows q h hce' true (fillOf q) _ arrs hne hplaced' _ (by omega), hcur]
+    have hwin : windows q pts = distinctIdx q pts := by
+      have he : emptiesRequired q = false := by simp [emptiesRequired, hce']
+      simp [windows, he]
+    rw [hwin]
+    simp only [List.map_map, List.length_map, beq_self_eq_true, Bool.true_and]
+    rw [zip_map_all', List.all_eq_true]
+    intro i hi
+    simp only [Function.comp_def, mkRow, htc, pointWin_stop q h]
+    exact rowOK_present o q hns pts i hi
+
+/-- **C41 on the model, cursor included**: the storage cursor of the C20 model under the
+    reader's tables.  For every cutting of the series' points (time-ordered, inside the bounds)
+    into non-empty arrays and every block size, the cursor terminates and the tables built from
+    its arrays pass the statement checker (count / sum / mean, no time column). -/
+theorem C41_holdsOn_model_partial (B : Nat) (hB : 1 ≤ B) (o : Ops Val) (q : Req) (h : 0 < q.every) (hb : q.bstart < q.bstop)
+    (hns : isSelector q.agg = false) (htc : q.timeCol = .none)
+    (chunks : List (List (Pt Val))) (hne : ∀ c ∈ chunks, c ≠ []) (hpts : chunks.flatten ≠ [])
+    (hs : Sorted chunks.flatten) (hin : ∀ p ∈ chunks.flatten, q.bstart ≤ p.1 ∧ p.1 < q.bstop)
+    (fuel : Nat) (hfuel : chunks.flatten.length < fuel) :
+    ∃ arrs, drain (Cursor.next B o (Win.ofWindow q.win)) fuel (Cursor.new q.agg (Win.ofWindow q.win) chunks) = some arrs ∧
+      holdsOn o ⟨q, chunks.flatten, some (seriesTables B q arrs)⟩ = true := by
+  have hfold : Influx.Props.C20.IsFold q.agg := by
+    unfold Influx.Props.C20.IsFold
+    cases hq : q.agg <;> simp_all [isSelector]
+  obtain ⟨arrs, h1, h2, h3⟩ := Influx.Props.C20.C20_fold B hB o q.agg hfold (Win.ofWindow q.win)
+    (Win.ofWindow_OK q.every q.offset h) chunks hne hs fuel hfuel
+  refine ⟨arrs, h1, ?_⟩
+  have hstop : (Win.ofWindow q.win).stop = stopFn q := Influx.Props.C20.ofWindow_stop q.every q.offset h
+  rw [hstop] at h2
+  exact C41_holdsOn_partial B o q h hb hns htc chunks.flatten hpts hs hin arrs h3 h2
 
 -- non-vacuity / sanity of the model on a concrete request: every 10, bounds [5,38), mean, createEmpty, time = _stop
 example : seriesTables 1000 ⟨.mean, 10, 3, 5, 38, true, .stop, false⟩ [[(23, .f 2), (33, .f 3)]]
